@@ -320,6 +320,7 @@ def run(rep, facts, tier):
     rule_14_6(rep, fx)
     rule_14_7(rep, fx)
     rule_14_8(rep, fx)
+    rule_14_9(rep, fx)
     if tier == 'thorough' and 'security' in facts:
         default_types = set(strip_generics(b.impl_self or '') for b in fx.bodies if b.name == 'len_serialized' and b.impl_self)
         rule_14_6(rep, facts['security'], pre='security:', skip=default_types)
@@ -584,3 +585,39 @@ def rule_14_8(rep, fx):
                 ks.add(int(cond[3][2]))
         rep.check(ks == {lit} and lit is not None, 'R14.8', '%s/header-constant' % short, 'parser constant %s = writer literal %s' % (sorted(ks), lit),
                   '%s::%s compares octetsToInlineQos with %s but the writer emits %s' % (short, pname, sorted(ks), lit), pb.where())
+
+
+def rule_14_9(rep, fx):
+    """RTPS 2.5 9.4.5.1.3: octetsToNextHeader == 0 means "extends to the end of the message", except for PAD and INFO_TS, where it means an empty submessage."""
+    from rdv.core import Origins, Pos, switch_edges, term_has
+    rep.rule('R14.9', 'zero-length rule of the parser: when octetsToNextHeader is 0, Submessage::read_from_buffer takes the content as empty exactly for PAD and INFO_TS and as "the rest of '
+                      'the message" for every other kind; an INFO_TS with the Invalidate flag (which the builder emits with length 0) therefore does not swallow the submessages after it')
+    b = fx.find('rtps::submessage::Submessage::read_from_buffer')
+    rep.analysed(b)
+    og = Origins(b)
+    P = Pos(b)
+    edges = list(switch_edges(b, fx, og))
+    zero = [(s_, t_) for s_, t_, cond, lab in edges if lab is True and cond[0] == 'bin' and cond[1] == 'Eq' and cond[3] == ('const', 'int', 0) and
+            term_has(cond[2], lambda x: x[0] == 'field' and x[1] == 'content_length')]
+    consts = {c['path'].rsplit('::', 1)[-1]: c.get('val') for c in fx.doc['consts'] if 'submessage_kind::SubmessageKind::' in c['path']}
+    want = {consts.get('PAD'), consts.get('INFO_TS')}
+    empties = set()
+    rest = False
+    n_sw = 0
+    for s_, t_, cond, lab in edges:
+        if not (term_has(cond, lambda x: x[0] == 'field' and x[1] == 'kind') and zero and P.every_path_passes(None, (s_, 'term'), via_edges=zero, from_entry=True)):
+            continue
+        n_sw += 1
+        assigns_zero = any(st['s'] == 'assign' and st['rv']['r'] == 'use' and st['rv']['x'].get('o') == 'const' and st['rv']['x']['k'].get('v') == 0 and 'usize' in (b.locals[st['lhs']['l']] or '')
+                           for st in b.blocks[t_]['st'])
+        if isinstance(lab, int) and assigns_zero:
+            empties.add(lab)
+        if isinstance(lab, tuple) and lab[0] == 'not' and not assigns_zero:
+            rest = True
+        if isinstance(lab, tuple) and lab[0] == 'not' and assigns_zero:
+            empties.add('every other kind')
+    ok = None not in want and empties == want and rest and n_sw > 0
+    names = sorted(k for k, v in consts.items() if v in empties) + [e for e in empties if isinstance(e, str)]
+    rep.check(ok, 'R14.9', 'read_from_buffer/zero-length-kinds', 'empty for PAD and INFO_TS, rest of the message otherwise',
+              'with octetsToNextHeader = 0 the parser treats as empty: %s (RTPS 9.4.5.1.3 says exactly PAD and INFO_TS): a zero-length INFO_TS or PAD in the middle of a message '
+              'swallows every submessage after it, or a last submessage longer than 64 KiB is cut to nothing' % (names or 'nothing'), b.where())
